@@ -510,16 +510,16 @@ has only raised credits -/
 theorem burst_cases {en : Entry} (hi : AInv flow F size cfg Lmax P a now) (hst : StartsAt a q en) :
     (∃ g m id, en = .got m id ∧ a.run = .H g m id q ∧ (Num.ofNat (size id) : ℚ) ≤ a.dfc (flow id) ∧
       a.burst F (qOf cfg) size cfg.weights P now en = ⟨a, [], .send m (flow id) id false⟩) ∨
-    (∃ a1 L fin, MidInv F flow size cfg Lmax P a1 now ∧ midMu F a1 + 1 ≤ a.mu F ∧ SameBut a a1 ∧
+    (∃ a1 e0 L fin, MidInv F flow size cfg Lmax P a1 now ∧ midMu F a1 + 1 ≤ a.mu F ∧ SameBut a a1 ∧
       (∀ f, a1.dfc f ≤ L.dfc f) ∧ fin ≠ .hang ∧ EndOK size a1.ccnt a1.hol (a1.total F) cfg.weights L (some fin) ∧
-      a.burst F (qOf cfg) size cfg.weights P now en = ⟨finA a1 L (some fin), L.evs, fin⟩ ∧ (en = .top → a1 = a)) := by
+      a.burst F (qOf cfg) size cfg.weights P now en = ⟨finA a1 L (some fin), e0 ++ L.evs, fin⟩ ∧ (en = .top → a1 = a)) := by
   have hQ0 : ∀ c, 0 ≤ qOf cfg c := fun c => by linarith [qOf_ge hi.table c]
   cases en with
   | top =>
     right
     obtain ⟨hm, hmu⟩ := mid_top hi hst
     obtain ⟨h1, h2, h3⟩ := loop_post (t := now) hm (⟨a.dfc, []⟩, none) trivial (fun f => le_refl _)
-    exact ⟨a, _, _, hm, hmu, SameBut.rfl' a, h3, h1, h2, rfl, fun _ => rfl⟩
+    exact ⟨a, [], _, _, hm, hmu, SameBut.rfl' a, h3, h1, h2, rfl, fun _ => rfl⟩
   | got m id =>
     obtain ⟨g, h⟩ := hst
     have hrun := hi.run
@@ -537,9 +537,9 @@ theorem burst_cases {en : Entry} (hi : AInv flow F size cfg Lmax P a now) (hst :
         simpa [List.tail_drop] using this
       have hv := visitFrom_ok (Q := qOf cfg) (size := size) (ccnt := a.ccnt) (hol := upd a.hol (flow id) (some id)) (t := now)
         (total := A.total F { a with hol := upd a.hol (flow id) (some id) }) (ws := cfg.weights) hQ0 rest (m + 1)
-        ⟨a.dfc, [.park id now]⟩ hd'
+        ⟨a.dfc, []⟩ hd'
       obtain ⟨h1, h2, h3⟩ := loop_post (t := now) hm _ hv.1 hv.2
-      refine ⟨_, _, _, hm, hmu, ⟨rfl, rfl, rfl, rfl, rfl, rfl, rfl, rfl, rfl, rfl⟩, h3, h1, h2, ?_, fun h => by cases h⟩
+      refine ⟨_, [.park id now], _, _, hm, hmu, ⟨rfl, rfl, rfl, rfl, rfl, rfl, rfl, rfl, rfl, rfl⟩, h3, h1, h2, ?_, fun h => by cases h⟩
       simp only [A.burst, hd, hle, if_false]
       rfl
   | done m id =>
@@ -580,9 +580,9 @@ theorem burst_cases {en : Entry} (hi : AInv flow F size cfg Lmax P a now) (hst :
             (hol := (a.book size (flow id) id).hol) (t := now) (total := (a.book size (flow id) id).total F) (ws := cfg.weights)
             hQ0 rest (m + 1) L' hd'
           exact ⟨hv.1, fun f => le_trans (by rw [hi2, hL0]) (hv.2 f)⟩
-    obtain ⟨hp1, hp2⟩ := hpiece ⟨(a.book size (flow id) id).dfc, bookEvs a (flow id) id now⟩ rfl
+    obtain ⟨hp1, hp2⟩ := hpiece ⟨(a.book size (flow id) id).dfc, []⟩ rfl
     obtain ⟨h1, h2, h3⟩ := loop_post (t := now) hm _ hp1 hp2
-    refine ⟨_, _, _, hm, hmu, book_same a _ id, h3, h1, h2, ?_, fun h => by cases h⟩
+    refine ⟨_, bookEvs a (flow id) id now, _, _, hm, hmu, book_same a _ id, h3, h1, h2, ?_, fun h => by cases h⟩
     simp only [A.burst, hd]
     rfl
 
@@ -758,14 +758,14 @@ theorem astep_sound {a' : A} {new : List (HEv ℚ)} (hi0 : AInv flow F size cfg 
   have hrun := hi.run
   cases hs with
   | burstGet en r m' c' id' is hst hb hfin hc' hit =>
-    rcases burst_cases hi hst with ⟨g, m, id, -, -, -, hbe⟩ | ⟨a1, L, fin, hm, hmu, hsb, hmono, -, hE, hbe, -⟩
+    rcases burst_cases hi hst with ⟨g, m, id, -, -, -, hbe⟩ | ⟨a1, e0, L, fin, hm, hmu, hsb, hmono, -, hE, hbe, -⟩
     · rw [hbe] at hb; subst hb; cases hfin
     · rw [hbe] at hb; subst hb
       simp only at hfin; subst hfin
       have := ainv_end_get (n := n) (e := e) hm L hmono hE hc' (hsb.items ▸ hit)
       exact ⟨this.1, (Nat.add_le_add_right this.2 1).trans hmu⟩
   | burstSend en r m' c' id' pk hst hb hfin =>
-    rcases burst_cases hi hst with ⟨g, m, id, -, h, hle, hbe⟩ | ⟨a1, L, fin, hm, hmu, hsb, hmono, -, hE, hbe, -⟩
+    rcases burst_cases hi hst with ⟨g, m, id, -, h, hle, hbe⟩ | ⟨a1, e0, L, fin, hm, hmu, hsb, hmono, -, hE, hbe, -⟩
     · rw [hbe] at hb; subst hb
       simp only [LoopEnd.send.injEq] at hfin
       obtain ⟨rfl, rfl, rfl, rfl⟩ := hfin
@@ -775,7 +775,7 @@ theorem astep_sound {a' : A} {new : List (HEv ℚ)} (hi0 : AInv flow F size cfg 
       have := ainv_end_send (n := n) (e := e) hm L hmono hE
       exact ⟨this.1, (Nat.add_le_add_right this.2 1).trans hmu⟩
   | burstBlock en r hst hb hfin htk =>
-    rcases burst_cases hi hst with ⟨g, m, id, -, -, -, hbe⟩ | ⟨a1, L, fin, hm, hmu, hsb, hmono, -, hE, hbe, -⟩
+    rcases burst_cases hi hst with ⟨g, m, id, -, -, -, hbe⟩ | ⟨a1, e0, L, fin, hm, hmu, hsb, hmono, -, hE, hbe, -⟩
     · rw [hbe] at hb; subst hb; cases hfin
     · rw [hbe] at hb; subst hb
       simp only at hfin; subst hfin
@@ -786,7 +786,7 @@ theorem astep_sound {a' : A} {new : List (HEv ℚ)} (hi0 : AInv flow F size cfg 
       rw [heq] at this
       exact ⟨this.1, (Nat.add_le_add_right this.2 1).trans hmu⟩
   | burstTok en r t hst hb hfin htk =>
-    rcases burst_cases hi hst with ⟨g, m, id, -, -, -, hbe⟩ | ⟨a1, L, fin, hm, hmu, hsb, hmono, -, hE, hbe, -⟩
+    rcases burst_cases hi hst with ⟨g, m, id, -, -, -, hbe⟩ | ⟨a1, e0, L, fin, hm, hmu, hsb, hmono, -, hE, hbe, -⟩
     · rw [hbe] at hb; subst hb; cases hfin
     · rw [hbe] at hb; subst hb
       simp only at hfin; subst hfin
